@@ -98,7 +98,8 @@ func checkC06(c c06Case, ctx *vCtx) *vFailure {
 		case "env":
 			fmtEnv["HR_DATE_FORMAT"] = c.Layout
 		case "config":
-			fmtArgs = append(fmtArgs, "--config", vWriteFile("c06.conf", "[Global]\nDateFormat="+c.Layout+"\n"))
+			// the configuration file also sets the clock: --today must still win
+			fmtArgs = append(fmtArgs, "--config", vWriteFile("c06.conf", "[Global]\nNow=2019-05-05T00:00:00Z\nDateFormat="+c.Layout+"\n"))
 		default:
 			fmtArgs = append(fmtArgs, "--date-format", c.Layout)
 		}
@@ -290,7 +291,8 @@ func genC06(t *rapid.T) c06Case {
 	// windows incl. month, year and leap-day boundaries and daylight-saving changes (2021-03-14 Havana/US, 2021-03-28 EU,
 	// 2021-09-05 Santiago, 2021-11-07 US)
 	// -3 and 1458: 31 December of a leap year next to 1 January
-	base := []int{c06Base, 56, 362, 1150, 70, 84, 245, 308, -3, 1458}[rapid.IntRange(0, 9).Draw(t, "base")]
+	// -18631: 1969-12-29 .. 1970-01-03 (around the Unix epoch); -44197 and 28852: around 1 March 1900 and 2100 (no leap day)
+	base := []int{c06Base, 56, 362, 1150, 70, 84, 245, 308, -3, 1458, -18631, -44197, 28852}[rapid.IntRange(0, 12).Draw(t, "base")]
 	exact := true
 	lo := vLayoutOpts{Plain: true}
 	if rapid.IntRange(0, 4).Draw(t, "varlayout") == 0 {
@@ -409,7 +411,7 @@ func c06EnumCase(ix c06EnumIdx) c06Case {
 }
 
 // exhaustive: keyword bounds around daylight-saving changes and year ends
-var c06DSTWindows = []int{70, 84, 245, 308, -3, 1458, 362} // first day of a 6-day window
+var c06DSTWindows = []int{70, 84, 245, 308, -3, 1458, 362, -18631} // first day of a 6-day window
 var c06DSTZones = []string{"America/New_York", "Europe/Berlin", "America/Havana", "America/Santiago", "Australia/Lord_Howe", "Asia/Kolkata", "UTC"}
 
 type c06DSTIdx struct{ win, today, kw, side, zone, cmd int }
@@ -458,7 +460,7 @@ func c06DSTCase(ix c06DSTIdx) c06Case {
 func TestVerifC06DST(t *testing.T) {
 	space := c06DSTSpace()
 	vEnum(t, "C06", "c06.dst",
-		"keyword and explicit bounds around daylight-saving changes and year ends: 7 six-day windows (2021-03-14 US/Havana, 2021-03-28 EU, 2021-09-05 Santiago, 2021-11-07 US, 2020/2021 and 2024/2025 leap-year ends, 2021/2022) x --today on each day x bound in {today, yesterday, last7, last30, explicit date} x {begin, end} x 7 zones x {csv log, reg}, on a log with one record per day from today-31 to today+1",
+		"keyword and explicit bounds around daylight-saving changes and year ends: 8 six-day windows (the Unix epoch, 2021-03-14 US/Havana, 2021-03-28 EU, 2021-09-05 Santiago, 2021-11-07 US, 2020/2021 and 2024/2025 leap-year ends, 2021/2022) x --today on each day x bound in {today, yesterday, last7, last30, explicit date} x {begin, end} x 7 zones x {csv log, reg}, on a log with one record per day from today-31 to today+1",
 		fmt.Sprintf("%d combinations", len(space)), len(space), func(i int) c06Case { return c06DSTCase(space[i]) }, checkC06)
 }
 
